@@ -139,6 +139,12 @@ func concDirect(i int, code string) (gmsl.ServerKeys, error) {
 		return concBuildResp(s, i, vu, []concVK{{"x25519:c", 3, false}}, nil), nil
 	case "W":
 		return concRespG("w"+strconv.Itoa(i), i, vu, 4, 5, true), nil
+	case "T":
+		// what the per-server deadline of fetchKeysForServer (or an http.Client timeout) produces while the caller's own
+		// context is alive: a failure of THIS server like any other (seeded change C19-r5m2)
+		return gmsl.ServerKeys{}, fmt.Errorf("scripted: Get https://%s/_matrix/key/v2/server: %w", s, context.DeadlineExceeded)
+	case "X":
+		return gmsl.ServerKeys{}, fmt.Errorf("scripted: %w", context.Canceled)
 	}
 	return gmsl.ServerKeys{}, errScripted
 }
@@ -156,6 +162,10 @@ func concNotary(i int, code string) ([]gmsl.ServerKeys, error) {
 		return []gmsl.ServerKeys{concRespG(s, i, vu, 0, 1, false), concRespG(s, i, vu, 0, 1, true)}, nil
 	case "M":
 		return []gmsl.ServerKeys{concRespM(s, i, vu, true)}, nil
+	case "T":
+		return nil, fmt.Errorf("scripted: notary lookup for %s: %w", s, context.DeadlineExceeded)
+	case "X":
+		return nil, fmt.Errorf("scripted: %w", context.Canceled)
 	}
 	return nil, errScripted
 }
@@ -483,8 +493,8 @@ func emitFetch(o *Out, op, cfg, sched string) {
 	}
 }
 
-var fetchDirectCodes = []string{"G", "M", "E", "U", "P", "Z", "C", "W", "L"}
-var fetchNotaryCodes = []string{"G", "M", "E", "N", "B"}
+var fetchDirectCodes = []string{"T", "G", "M", "E", "U", "P", "Z", "C", "W", "L"}
+var fetchNotaryCodes = []string{"T", "G", "M", "E", "N", "B"}
 
 func randFetchSrv(r *Rng) string {
 	d := Pick(r, fetchDirectCodes)
@@ -585,7 +595,17 @@ func genConcFetch(o *Out, tier string, r *Rng) {
 		m := 86 + r.Intn(6)
 		ss := make([]string, m)
 		for j := range ss {
-			ss[j] = "a:" + Pick(r, []string{"E", "U", "Z", "W"}) + ":" + Pick(r, []string{"E", "N", "B"})
+			ss[j] = "a:" + Pick(r, []string{"E", "U", "Z", "W", "T", "X"}) + ":" + Pick(r, []string{"E", "N", "B", "T", "X"})
+		}
+		if i%2 == 1 {
+			// every server but the answering ones runs into its own deadline, on the direct request and on the notary
+			for j := range ss {
+				ss[j] = "a:T:" + Pick(r, []string{"T", "T", "X"})
+			}
+			o.Count("fetch.big.sparse.timeouts")
+			for j := 0; j < 4; j++ { // a few more answering servers, so that some wait in the queue whatever the schedule
+				ss[r.Intn(m)] = "a:G:E"
+			}
 		}
 		ss[r.Intn(m)] = "a:G:E"
 		if r.Bool() {
